@@ -8,7 +8,7 @@ last; (5) the downlink stream written by all threads decodes strictly and carrie
 import hashlib
 from collections import Counter
 
-from .. import cfggen, fold, gen, model, runner, spec_lowlevel as S, statemodel, sweep
+from .. import cfggen, fold, gen, model, runner, spec_lowlevel as S, statemodel, sweep, uplink
 from ..model import C
 from ..scen import Scn, call, up, s as S_
 from .C05 import seq_scan
@@ -19,8 +19,12 @@ DATALESS = ['bidib_send_sys_enable', 'bidib_send_sys_disable']
 
 RECV_KINDS = ('segments', 'boosters', 'track_outputs', 'points_board', 'signals_board', 'peripherals', 'reversers')
 
-def make_cfg(rng, tag):
-    cfg = cfggen.gen_config(rng, nboards=rng.randrange(1, 4), with_initial=False)
+def make_cfg(rng, tag, hubs=False):
+    cfg = cfggen.gen_config(rng, nboards=rng.randrange(1, 4) if not hubs else rng.randrange(3, 6), with_initial=False)
+    if hubs:
+        for b in cfg['boards'][1:]:
+            if rng.random() < 0.6:
+                b['uid'] = bytes([b['uid'][0] | 0x80]) + b['uid'][1:]      # hubs with boards beneath them: a lost hub takes its subtree along in ONE step
     # a train with several functions per group (read-modify-write commands), a track output and some segments
     cfg['trains'] = [t for t in cfg['trains'] if False]
     for ti in range(2):
@@ -75,7 +79,7 @@ def gen_directed(ctx, k):
     recv  - the receiver is paused at the j-th scheduling point of its processing of one feedback message; the main thread calls getters.
     queue - a reader is paused inside bidib_read_message while another reader drains; every queued message is returned exactly once."""
     rng = ctx.sub_rng('c10d', k)
-    cfg, d, nodes, m, b0 = make_cfg(rng, f'c10d_{k}')
+    cfg, d, nodes, m, b0 = make_cfg(rng, f'c10d_{k}', hubs=(k % 2 == 0))
     sc = Scn(seed=ctx.seed * 127 + k, perturb=0, watchdog=300000)
     sc.add(*cfggen.bus_lines(cfg, nodes), 'bus brackets 1', f'start {d} 0', 'quiesce', 'mark conc_begin')
     tos = [b for b in cfg['boards'] if cfggen.is_track_output(b) and m.connected(b['id'])]
@@ -86,9 +90,10 @@ def gen_directed(ctx, k):
     last_set = {}
     npong = 0
     idx = 0
+    notices = [0]
     for i in range(rng.randrange(50, 90)):
         j = 1 + (i * 5 + k * 3) % kmax
-        kind = rng.choice(['rmw', 'rmw', 'recv', 'recv', 'queue', 'getp', 'getp'])
+        kind = rng.choice(['rmw', 'rmw', 'recv', 'recv', 'queue', 'getp', 'getp', 'notice'])
         if kind == 'rmw':
             t = rng.choice(cfg['trains'])
             pa, pb = rng.sample(t['peripherals'], 2)
@@ -101,6 +106,27 @@ def gen_directed(ctx, k):
                                       [call('bidib_set_train_peripheral', S_(t['id']), S_(pb['id']), vb, S_(to))], j, fn, after=('flush', 'quiesce'))
             last_set[(t['id'], pa['id'])] = va
             last_set[(t['id'], pb['id'])] = vb
+        elif kind == 'notice':
+            # a hub with boards beneath it is reported lost while the receiver is paused in the middle of processing the notice: the enumeration
+            # getters over the board table return the tree before or after the notice, never the hub gone and its sub-nodes still there
+            conn = [b for b in cfg['boards'] if m.connected(b['id']) and m.addr[b['id']] != (0, 0, 0)]
+
+            def below(x):
+                ax = m.addr[x['id']]
+                dx = 1 if ax[1] == 0 else 2 if ax[2] == 0 else 3
+                return [y for y in conn if y is not x and dx < 3 and m.addr[y['id']][:dx] == ax[:dx]]
+            keep = {b0['id'], to}         # the track output the train-function commands go through must stay connected (one writer per function)
+            hubs_ = [x for x in conn if below(x) and x['id'] not in keep and not any(y['id'] in keep for y in below(x))]
+            if not hubs_ or notices[0] >= 2:
+                continue
+            L = rng.choice(hubs_)
+            a = m.addr[L['id']]
+            dpt = 1 if a[1] == 0 else 2 if a[2] == 0 else 3
+            parent = tuple(list(a[:dpt - 1]) + [0] * (3 - (dpt - 1)))
+            data = bytes([2 + notices[0], a[dpt - 1]]) + L['uid']
+            sweep.add_receiver_case(sc, idx, [up(model.build_msg(parent, 0, C('MSG_NODE_LOST'), data))], ['get enum x', 'get enum x'], 1 + (i * 3 + k) % (60 if fn else 12), fn)
+            m.on_uplink(parent, C('MSG_NODE_LOST'), data)
+            notices[0] += 1
         elif kind == 'getp':
             # the GETTER is paused at its j-th scheduling point (e.g. right after it released the state mutex) and the receiver then processes a
             # message that changes exactly the queried entity; the result must be the entity before or after it, and no access of the paused
@@ -129,6 +155,46 @@ def gen_directed(ctx, k):
         idx += 1
     sc.add('flush', 'quiesce', 'flush', 'quiesce', 'snap end', 'drain', 'stop')
     return sc.text(), cfg, nodes, last_set, npong, 2
+
+def gen_notice_sweep(ctx, k):
+    """board-table atomicity, swept: a first-level hub with boards beneath it is reported lost with the receiver paused at its j-th scheduling
+    point (j = 1..J), the main thread reads the enumeration getters, then the hub and its sub-nodes log on again (top down) and the next j follows"""
+    rng = ctx.sub_rng('c10n', k)
+    for _try in range(40):
+        cfg, d, nodes, m, b0 = make_cfg(rng, f'c10n_{k}', hubs=True)
+        conn = [b for b in cfg['boards'] if m.connected(b['id']) and m.addr[b['id']] != (0, 0, 0)]
+
+        def below(x):
+            ax = m.addr[x['id']]
+            dx = 1 if ax[1] == 0 else 2 if ax[2] == 0 else 3
+            return [y for y in conn if y is not x and dx < 3 and m.addr[y['id']][:dx] == ax[:dx]]
+        hubs_ = [x for x in conn if below(x) and m.addr[x['id']][1] == 0]
+        if hubs_:
+            break
+    else:
+        return None
+    L = rng.choice(hubs_)
+    kids = sorted(below(L), key=lambda y: 0 if m.addr[y['id']][2] == 0 else 1)          # second level before third level
+    addr0 = {b['id']: m.addr[b['id']] for b in [L] + kids}
+    sc = Scn(seed=ctx.seed * 131 + k, perturb=0, watchdog=300000)
+    sc.add(*cfggen.bus_lines(cfg, nodes), 'bus brackets 1', f'start {d} 0', 'quiesce', 'mark conc_begin')
+    fn = bool(k % 2)
+    ver = 2
+    for idx, j in enumerate(range(1, (70 if fn else 16))):
+        lost = bytes([ver, addr0[L['id']][0]]) + L['uid']
+        ver = ver % 255 + 1
+        sweep.add_receiver_case(sc, idx, [up(model.build_msg((0, 0, 0), 0, C('MSG_NODE_LOST'), lost))], ['get enum x', 'get enum x'], j, fn)
+        m.on_uplink((0, 0, 0), C('MSG_NODE_LOST'), lost)
+        for b in [L] + kids:
+            oa = addr0[b['id']]
+            dpt = 1 if oa[1] == 0 else 2 if oa[2] == 0 else 3
+            parent = tuple(list(oa[:dpt - 1]) + [0] * (3 - (dpt - 1)))
+            new = bytes([ver, oa[dpt - 1]]) + b['uid']
+            ver = ver % 255 + 1
+            sc.add(up(model.build_msg(parent, 0, C('MSG_NODE_NEW'), new)), 'quiesce')
+            m.on_uplink(parent, C('MSG_NODE_NEW'), new)
+    sc.add('flush', 'quiesce', 'snap end', 'drain', 'stop')
+    return sc.text(), cfg, nodes, {}, 0, 2
 
 def gen_scenario(ctx, k, flavour, small=False):
     rng = ctx.sub_rng('c10', k)
@@ -266,6 +332,16 @@ def evaluate(ctx, r, cfg, nodes, last_set, npong, nt, meta):
                 if bs['simple'] != ok:
                     ctx.violation('torn', 'booster', f'bidib_get_state(): booster {bs["id"]} power_state {bs["power_state"]:#x} with simple state {bs["simple"]} (written by one message)', r.scenario, r.flavour, meta)
                     return
+        elif e['kind'] == 'enum':
+            got = e['r'].get('boards_connected')
+            if isinstance(got, dict):
+                got = got.get('ids')
+            cands = [[b['id'] for b in cfg['boards'] if S_seq[i].connected(b['id'])] for i in range(lo, hi + 1)]
+            ctx.count('board_table_results_checked')
+            if got is not None and sorted(got) not in [sorted(c_) for c_ in cands]:
+                ctx.violation('never-existed', 'board-table', f'bidib_get_boards_connected() = {got} is the set of connected boards in none of the states S{lo}..S{hi} that existed during the call '
+                              f'(S{lo}: {cands[0]}, S{hi}: {cands[-1]}) - a node-lost notice was applied in parts', r.scenario, r.flavour, meta)
+                return
         elif e['kind'] in ('periph', 'point', 'signal', 'reverser', 'to'):
             # entities written by the receiver thread only (board accessories, peripherals, reversers, track outputs): the result must be the
             # value of the entity in one of the states that existed during the call - never a mixture of two updates, never freed memory
@@ -302,7 +378,19 @@ def evaluate(ctx, r, cfg, nodes, last_set, npong, nt, meta):
     if dup:
         ctx.violation('returned-twice', 'queue', f'queued message {dup[0].hex()} was returned {cnt[dup[0]]} times', r.scenario, r.flavour, meta)
         return
-    if len(cnt) != npong:
+    # the message queue is bounded (128, drop-oldest): besides the unique PONGs it receives the answers to the application threads' own requests.
+    # Upper bound of its fill level from the log: +1 when a packet with a message for that queue is consumed, -1 when a read has returned one
+    fill = peak = 0
+    pkq = fold.packets_of(ev)
+    for e in ev[cb:]:
+        if e.get('e') == 'rxc':
+            fill += sum(1 for pm in pkq.get(e['pkt'], []) if 'msg' in uplink.destination(pm['type'], pm['data'], False))
+            peak = max(peak, fill)
+        elif e.get('e') == 'q' and e['q'] == 'msg':
+            fill = max(0, fill - 1)
+    if peak >= 120:
+        ctx.count('runs_with_possible_queue_overflow')
+    elif len(cnt) != npong:
         ctx.violation('lost', 'queue', f'{npong} unique messages were queued (never more than 110 outstanding), readers received {len(cnt)}', r.scenario, r.flavour, meta)
         return
     # (4) lost updates of read-modify-write commands: one writer thread per function
@@ -365,6 +453,10 @@ def run(ctx):
         jobs.append((fl,) + gen_scenario(ctx, k, fl))
     for k in range(ctx.n(30, 1200) if only != 'stress' else 0):
         jobs.append((('mon', 'asan', 'tsan')[k % 3],) + gen_directed(ctx, k) + ('directed',))
+    for k in range(ctx.n(8, 300) if only in ('', 'directed', 'notice') else 0):
+        g = gen_notice_sweep(ctx, k)
+        if g:
+            jobs.append((('mon', 'asan')[k % 2],) + g + ('directed',))
     for fl in ('tsan', 'asan', 'mon'):
         js = [j for j in jobs if j[0] == fl]
         res = runner.run_many(fl, [(i, j[1]) for i, j in enumerate(js)], timeout=900)
